@@ -9,6 +9,7 @@ import numpy as np
 
 from .. import grid, synth
 from ..core import Report, V
+from .c02 import ref_force_np
 
 PROP = "C01"
 LEVEL = "exploration"
@@ -42,10 +43,22 @@ def build(case):
         amax = math.sqrt(case["geom"] * DEPTH)
         t = amax * (EL / case["E"]) ** (2 / 3) * 1.18 / 10
         over.update(E_L=EL, t=t)
+        if case["geom"] == GEOM[mk][1][-1]:
+            # unequal Poisson ratios of sample and layer
+            over.update(nu_S=0.2, nu_L=0.45)
+    elif case["geom"] == GEOM[mk][1][-1]:
+        over.update(nu=0.3)
     tr = synth.truth_params(mk, **over)
     n = case["n"]
     arr = synth.make_arrays(mk, tr, n_app=n, n_ret=n, x_start=XSTART,
                             depth=DEPTH, nonuniform=case["nonuniform"])
+    # the curve follows the *documented* model: generated with the
+    # independent literature reference, not with nanite's own function
+    pp = {k: v for k, v in tr.items()
+          if k not in ("contact_point", "baseline")}
+    arr["force"] = case["baseline"] + ref_force_np(
+        mk, case["cp"] - arr["tip position"], pp)
+    arr["height (measured)"] = arr["tip position"] - arr["force"] / 0.05
     f0 = arr["force"]
     Fmax = float(np.max(f0) - case["baseline"])
     sigma = case["noise"] * Fmax
@@ -145,7 +158,7 @@ def cases(tier):
         samp = [(60, False), (300, True)]
         corners = [(0, 0, 0), (1, 1, 1), (0, 1, 0), (1, 0, 1)]
         noises = [(0.0, 0), (0.02, 1)]
-        geoms = [0]
+        geoms = [1]
     else:
         Es = [30.0, 300.0, 3e3, 3e4, 3e5]
         cps = [0.0, -3e-7, 5e-7]
